@@ -75,7 +75,7 @@ type regFail struct {
 func TestC17Registry(t *testing.T) {
 	const name = "TestC17Registry"
 	rec := evid.New("C17", name, "exhaustive enumeration of the registry: every 24-bit tag number, every pinned enumeration value and mask flag (and the live tables in the other direction), "+
-		"typed MarshalText/UnmarshalText of every enumeration Go type reachable from the message types, single-item XML/JSON/text round trips; "+
+		"typed MarshalText/UnmarshalText of every enumeration Go type reachable from the message types, single-item XML/JSON/text round trips (each generic enumeration value also written under three foreign tags: Attribute Value, a vendor tag, the next enumeration); "+
 		"plus rapid-drawn unregistered numbers and names; non-trivial = a registered entry (distinct by scope+number)").Attach(t)
 	rec.Exhaustive(true)
 	var fails []regFail
@@ -188,6 +188,35 @@ func TestC17Registry(t *testing.T) {
 			}
 			if txt := string(ttlv.MarshalText(gv)); !strings.HasSuffix(txt, ": "+n) {
 				fail("enum-text", "text form of %s=%s is %q", pins.TagNames[tag], n, txt)
+			}
+			// the same generic value written under ANOTHER tag (as an attribute value, under a vendor tag, under the next
+			// enumeration's tag): whatever name or number the writer chooses there, the reader must give back the number
+			for _, under := range []int{0x42000B, 0x540001, tags[(sort.SearchInts(tags, tag)+1)%len(tags)]} {
+				for _, encName := range []string{"xml", "json"} {
+					var out []byte
+					var back ttlv.Value
+					err := safely(func() error {
+						e := ttlv.NewXMLEncoder()
+						if encName == "json" {
+							e = ttlv.NewJSONEncoder()
+						}
+						e.TagAny(under, gv)
+						out = append([]byte{}, e.Bytes()...)
+						d, err := libDecoder(encName, out)
+						if err != nil {
+							return err
+						}
+						return d.TagAny(under, &back)
+					})
+					if err != nil {
+						fail("enum-under-foreign-tag-"+encName, "%s=%s written under tag 0x%06X as %s, read back with: %v", pins.TagNames[tag], n, under, out, err)
+						continue
+					}
+					if ev, ok := back.Value.(ttlv.Enum); !ok || uint32(ev) != v {
+						fail("enum-under-foreign-tag-"+encName, "%s=%s (0x%08X) written under tag 0x%06X as %s reads back as %#v", pins.TagNames[tag], n, v, under, out, back.Value)
+					}
+					rec.Eval(1)
+				}
 			}
 		}
 	}
